@@ -572,6 +572,77 @@ def run(ctx):
                                           how=f"Time(v, scale={scale!r}, fmt={f_out!r}) vs Time([v], ...)"))
                         ctx.case(("E2", scale, f_out, repr(val)), nontrivial=True)
 
+    # ---- G. cross-scale histories: two Time objects with bit-identical jd1/jd2 in two scales; whatever was read
+    #         from the first (formats, scale conversions) must not influence what the second one returns
+    n_hist = 24 if ctx.quick() else 300
+    leap_years = [1981, 1985, 1990, 1992, 1997, 2005, 2008, 2012, 2015, 2016]   # years with a leap second (utc year longer than gps year)
+    pairs = [(a, c) for a in scales for c in scales if a != c]
+    for k in range(n_hist):
+        sa, sb = pairs[k % len(pairs)] if k >= 6 else [("gps", "utc"), ("utc", "gps"), ("tai", "utc"), ("gps", "tt"), ("utc", "tai"), ("tcg", "gps")][k]
+        if sa not in scales or sb not in scales:
+            continue
+        m = rng.choice([1, 1, 2, 3])
+        us_list = []
+        for _ in range(m):
+            y = rng.choice(leap_years) if rng.random() < 0.7 else rng.randrange(1981, 2100)
+            u0 = us_of(datetime(y, 1, 1))
+            us_list.append(u0 + rng.randrange(150, 365) * US_DAY + rng.choice([0, US_DAY // 4, rng.randrange(US_DAY)]))
+        shape = "scalar" if m == 1 and rng.random() < 0.6 else rng.choice(["list", "array"])
+        mk = rng.choice(["jd", "datetime", "mjd"])
+        kind = "day+frac" if mk != "datetime" else "one"
+        vals, vals2 = make_input(rng, mk, kind, us_list)
+        order = k % 2                                    # 0: read first object completely, 1: interleaved per format
+        ctx.count(f"history:{sa}->{sb}:{shape}:order{order}")
+        try:
+            ta = build(Time, mk, sa, shape, vals, vals2, WS)
+            tb = build(Time, mk, sb, shape, vals, vals2, WS)
+            if flt(ta.jd1) != flt(tb.jd1) or flt(ta.jd2) != flt(tb.jd2):
+                ctx.count("history:jd-not-identical")
+                continue
+            got = {}
+            def read(t, f):
+                try:
+                    return ("ok", elems(f, getattr(t, f)))
+                except ValueError as e:
+                    return ("ValueError", str(e))
+            if order == 0:
+                for f in formats:
+                    read(ta, f)
+                for sc in scales:
+                    getattr(ta, sc)
+                for f in formats:
+                    got[f] = read(tb, f)
+            else:
+                for f in formats:
+                    read(ta, f)
+                    got[f] = read(tb, f)
+                    getattr(ta, sb)
+            j1, j2 = flt(tb.jd1), flt(tb.jd2)
+        except Exception as e:
+            direct.append((None, f"cross-scale history raised {type(e).__name__}: {e}",
+                           dict(kind="history", scales=[sa, sb], fmt=mk, shape=shape, values=[jsonable(mk, v, vals2[i] if vals2 else None) for i, v in enumerate(vals)])))
+            continue
+        hw = (f"a = Time(v, scale={sa!r}, fmt={mk!r}); b = Time(v, scale={sb!r}, fmt={mk!r}) with v = {vals!r}" + (f", val2 = {vals2!r}" if vals2 else "") +
+              f"  [{shape}]; read every format (and scale) of a, then b.<fmt>")
+        for f in formats:
+            st, outs = got[f]
+            rep = dict(kind="history", scales=[sa, sb], fmt_in=mk, shape=shape, accessor=f, order=order, how=hw,
+                       observed=(outs if st != "ok" else [jsonable(f, o) for o in outs]))
+            if f in GPS_ONLY and sb != "gps":
+                if st == "ok":
+                    direct.append((None, f".{f} of a {sb} Time returned a value after the same numbers were read as {sa} (the format is only valid for gps)", rep))
+                continue
+            if st != "ok":
+                direct.append((None, f".{f} of the second object raised ValueError: {outs}", rep))
+                continue
+            if len(outs) != len(j1):
+                direct.append((None, f".{f} of the second object has {len(outs)} elements for {len(j1)} epochs", rep))
+                continue
+            for i in range(len(j1)):
+                casesB.append(emit.pair(COQ_SCALE[sb], COQ_FMT[f], emit.dy(j1[i]), emit.dy(j2[i]), value_term(f, outs[i])))
+                metaB.append(dict(rep, jd1=float(j1[i]).hex(), jd2=float(j2[i]).hex(), observed=jsonable(f, outs[i])))
+                ctx.case(("G", sa, sb, f, j1[i], j2[i], order), nontrivial=True)
+
     # ---- F. text input with 0..9 fraction digits (TimeStr._str2dt)
     n_frac = 150 if ctx.quick() else 1500
     for k in range(n_frac):
@@ -676,7 +747,9 @@ def run(ctx):
               "1900/2000/2100 and others, strptime pivot years, GPS weeks 0/1/1023/1024/2047/2048/2094 +-; rest random day x "
               "{whole s, ms, us, special times}) x scale x input format (13) x input kind (one float, day+frac, noon+frac, float+rest, "
               "arbitrary split, datetime+timedelta, WeekSec) x list/ndarray; per element: A construction, B every accessor, C split, "
-              "D read-back round trip through every format, E scalar / length-1 forms element-wise, F text with 0..9 fraction digits. "
+              "D read-back round trip through every format, E scalar / length-1 forms element-wise, F text with 0..9 fraction digits, "
+              "G cross-scale histories (two Times with bit-identical jd1/jd2 in two scales, formats/scales of the first read before the second, "
+              "two read orders; gps-only formats must still be refused). "
               "distinct_nontrivial = distinct (check kind, scale, format, value) tuples"),
     )
 
